@@ -46,6 +46,14 @@ DERIVATIONS = {
 RECIPE_SOURCE_WEIGHTS = ((6, 1, 1), (4, 2, 3), (2, 2, 5))     # generated / stored example / mutated stored example
 
 
+# stored documents whose numpy payloads differ from those of the paired repr on the pristine tree
+# (cef4521), measured over the whole corpus: named here, never silently skipped
+CORPUS_PAYLOAD_DISAGREES_AT_HEAD = {
+    ("cirq", "KrausChannel", False): "KrausChannel.json spells the Kraus matrices of its second entry with integer "
+                                     "literals (reads as int64), the paired .repr builds them with dtype=np.float64",
+}
+
+
 def _family(transport: str) -> str:
     if transport.startswith("pickle"):
         return "pickle"
@@ -304,6 +312,19 @@ class _Run:
                             f"on this node; component {where}; value {label}",
                             fingerprint=f"{cls_hash}:{fam}:lookup:{where}")
 
+    def check_payload(self, pv: Optional[dict], what: str, label: str, detail: str, vtype: Optional[str]) -> None:
+        if pv is None:
+            return
+        self.ctx.event("payload", what, pv["same"], pv["n"])
+        if pv["n"]:
+            self.ctx.probe("payload-compared")
+        if not pv["same"]:
+            where = pv["where"] or ""
+            import re as _re
+            place = _re.sub(r"\[\d+\]|\{\d+\}", "", where)        # <Type>.field without positions
+            raise Violation(f"{P}-PAYLOAD", f"{detail}: numpy/pandas payload differs at {where}: {pv['detail']}; "
+                            f"value {label}", fingerprint=f"{P}-PAYLOAD:{what}:{place or vtype}")
+
     def op_copy(self) -> None:
         node = self.pick_node("copy.node", lambda n: n.held)
         slot = self.pick_held(node, "copy.slot")
@@ -326,6 +347,8 @@ class _Run:
         self.check_verdict(resp["verdict"], f"{P}-COPY", name, self.label(h.rid),
                            f"copy.{name} on node {node.idx} (PYTHONHASHSEED={node.seed}) of a value with touched "
                            f"caches {sorted(h.touched)}")
+        self.check_payload(resp.get("payload"), "copy", self.label(h.rid),
+                           f"copy.{name} on node {node.idx}", self.recipes[h.rid].get("type"))
         nh = _Held(h.rid, name, h.hops, h.procs, hash_cached=True, family=h.family)
         node.held[new_slot] = nh
 
@@ -452,13 +475,19 @@ class _Run:
             ctx.probe("namedqubit-in-circuitop-in-frozencircuit")
         if "measurement-and-control-keys" in rec["flags"]:
             ctx.probe("op-with-measurement-and-control-keys")
+        for flag, probe in (("coupler-tied", "coupler-tied-endpoints"), ("tied-qids", "qids-tied-on-coordinates"),
+                            ("negative-coordinate", "negative-coordinate")):
+            if flag in rec["flags"]:
+                ctx.probe(probe)
         if any(m["src"] == (node.idx, node.gen, slot) for m in self.messages):
             ctx.probe("same-value-in-two-dumps")
             if "shared-frozen" in rec["flags"] or "frozen" in rec["flags"]:
                 ctx.probe("same-frozen-circuit-in-two-dumps")
         msg = {"rid": h.rid, "transport": transport, "payload": resp["payload"], "src": (node.idx, node.gen, slot),
                "src_seed": node.seed, "touched": bool(h.touched), "hash_cached": h.hash_cached, "hops": h.hops,
-               "procs": h.procs, "src_alive": True}
+               "procs": h.procs, "src_alive": True, "payload_desc": resp.get("payload_desc")}
+        if resp.get("payload_desc") is not None:
+            h.touched.add("payload-walk")     # describing the payloads read _json_dict_ and the array attributes
         ctx.event("exported", transport, bool(h.touched), resp.get("has_ref", False))
         self.messages.append(msg)
         if len(self.messages) > MAX_MESSAGES:
@@ -481,7 +510,8 @@ class _Run:
         transport = m["transport"]
         ctx.decide("import", node.idx, slot, transport, m["src"][0], m["src"][1])
         resp = self.call(node, {"op": "import", "slot": slot, "transport": transport, "payload": m["payload"],
-                                "recipe": rec["recipe"]}, f"import {transport}", vtype=rec.get("type"))
+                                "recipe": rec["recipe"], "src_payload": m.get("payload_desc")},
+                         f"import {transport}", vtype=rec.get("type"))
         if resp["unsupported"]:
             ctx.event("unsupported", "import", transport, rec.get("type"))
             ctx.probe("repr-not-evaluable")
@@ -507,6 +537,7 @@ class _Run:
                   f" its caches, hop {hops}")
         cls_eq = f"{P}-REPR" if transport == "repr" else f"{P}-NEQ"
         self.check_verdict(resp["verdict"], cls_eq, _family(transport), rec["label"], detail)
+        self.check_payload(resp.get("payload"), _family(transport), rec["label"], detail, rec.get("type"))
         b = resp.get("behaviour")
         if b is not None:
             ctx.event("behaviour", b["applies"], b["same"], b["kind"])
@@ -605,6 +636,16 @@ class _Run:
             raise Violation(f"{P}-CORPUS", f"node {node.idx} (PYTHONHASHSEED={node.seed}, {node.imports} earlier "
                             f"imports): stored document {pkg}/{name}.{suffix} does not read to a value equal to "
                             f"eval of its paired repr", fingerprint=f"{P}-CORPUS:{pkg}/{name}.{suffix}")
+        pv = resp.get("payload")
+        if pv is not None:
+            self.ctx.event("payload", "corpus", pv["same"], pv["n"])
+            if pv["n"]:
+                self.ctx.probe("corpus-payload-compared")
+            if not pv["same"] and (pkg, name, inward) not in CORPUS_PAYLOAD_DISAGREES_AT_HEAD:
+                raise Violation(f"{P}-PAYLOAD", f"node {node.idx} (PYTHONHASHSEED={node.seed}): the value read from "
+                                f"{pkg}/{name}.{suffix} and eval of its paired repr are == but their numpy/pandas "
+                                f"payloads differ at {pv['where']}: {pv['detail']}",
+                                fingerprint=f"{P}-PAYLOAD:corpus:{pkg}/{name}.{suffix}")
         if resp["outward"] is False:
             raise Violation(f"{P}-CORPUS", f"node {node.idx}: cirq.to_json of the value of {pkg}/{name}.repr no "
                             f"longer produces the stored {name}.json (the repository's own rule: move the old file "
@@ -777,6 +818,14 @@ class C11(Check):
         "zero-qubit stabilizer objects (CliffordTableau(0), StabilizerStateChForm(0), Clifford gates built on a "
         "zero-qubit tableau) are degenerate values outside the workload: the generators never build them and a "
         "mutated stored example that yields one is discarded (probe mutated-zero-qubit-stabilizer-discarded)",
+        "payload oracle (C11-PAYLOAD): numpy arrays and pandas objects reachable through _json_dict_ trees, "
+        "containers and the records / measurements / data attributes are compared by dtype, shape and values: an "
+        "imported value against the very value that was exported (pickle, copy: identical dtype; JSON: identical, "
+        "or the dtype numpy gives the listed form of the source array, because a document that stores a nested "
+        "list carries no dtype -- complex64 reads back as complex128, e.g. MixedUnitaryChannel), a stored document "
+        "against eval of its paired repr under the same rule; numpy scalars are not tracked (JSON turns them into "
+        "Python numbers). Documents that already disagree on the pristine tree (cef4521): "
+        + "; ".join(f"{k[0]}/{k[1]}: {v}" for k, v in CORPUS_PAYLOAD_DISAGREES_AT_HEAD.items()),
         "I/O faults on the JSON reader/writer are not injected (the property promises nothing about torn files)",
         "completeness of the value generators over all registered classes is best-effort; the stored examples "
         "seed it",
@@ -796,7 +845,8 @@ class C11(Check):
                        "corpus-read-after-imports", "same-frozen-circuit-in-two-dumps",
                        "copy-of-cache-touched-value", "mutated-repr-accepted", "mutated-repr-rejected",
                        "derive-after-hash-cached", "derive-after-hop", "export-sweep",
-                       "op-with-measurement-and-control-keys"]
+                       "op-with-measurement-and-control-keys", "payload-compared", "corpus-payload-compared",
+                       "coupler-tied-endpoints", "qids-tied-on-coordinates", "negative-coordinate"]
 
     def setup(self) -> None:
         """Start the zygotes (one pre-imported interpreter per hash seed, shared by all workers; nodes are
